@@ -7,7 +7,7 @@ From V.model Require Import Base RelLex RelParse RelAcc RelGrammar.
 From V.proofs Require Import BaseP RelLexP RelParseP RelGrammarLexP.
 Set Default Timeout 60.
 
-Transparent bump skip_ws error expect in_node out_of_fuel version_text.
+Transparent bump skip_ws error expect in_node out_of_fuel version_text version_run cur_is_vtok.
 
 (* ---- basic moves on explicit states ---- *)
 Definition hd_kind (ts : list rtoken) : option rkind := match ts with [] => None | (k, _) :: _ => Some k end.
@@ -102,6 +102,12 @@ Qed.
 Lemma nowsk_cons k s r : is_ws_kind k = false -> nowsk ((k, s) :: r).
 Proof. intros H. exact H. Qed.
 
+Lemma elems_app a b : elems (a ++ b) = elems a ++ elems b.
+Proof. apply map_app. Qed.
+
+Lemma expect_hit_ident s r out n fl : expect IDENT (mk_pst ((IDENT, s) :: r) out n fl) = mk_pst r (out ++ [Tok IDENT s]) n fl.
+Proof. reflexivity. Qed.
+
 (* ---- ( op version ) ---- *)
 Lemma bump_constraint_stop w s r :
   bump_constraint (ws_toks w ++ (IDENT, s) :: r) = ([], ws_toks w ++ (IDENT, s) :: r).
@@ -118,27 +124,60 @@ Proof.
   destruct o; cbn [vop_toks app bump_constraint]; rewrite bump_constraint_stop; reflexivity.
 Qed.
 
+Definition colon_toks (ps : list str) : list rtoken := flat_map (fun p => [(COLON, [58%N]); (IDENT, p)]) ps.
+Definition vhead (v : vclause) : str := match v_epoch v with Some e => e | None => v_ver v end.
+Definition vtail (v : vclause) : list str := match v_epoch v with Some _ => v_ver v :: v_more v | None => v_more v end.
+
+Lemma vtext_toks_shape v : vtext_toks v = (IDENT, vhead v) :: colon_toks (vtail v).
+Proof. unfold vtext_toks, vhead, vtail, colon_toks. destruct (v_epoch v); reflexivity. Qed.
+
+Lemma cur_is_vtok_eq ts out n fl :
+  cur_is_vtok (mk_pst ts out n fl) =
+  match hd_kind ts with Some IDENT | Some COLON => true | _ => false end.
+Proof. unfold cur_is_vtok. rewrite !cur_is_eq. destruct (hd_kind ts) as [k|]; [destruct k|]; reflexivity. Qed.
+
+Lemma cur_is_vtok_stop w x r out n fl : cur_is_vtok (mk_pst (ws_toks w ++ (R_PARENS, x) :: r) out n fl) = false.
+Proof. unfold cur_is_vtok. rewrite !cur_is_ws_false; reflexivity. Qed.
+
+(* the run of IDENT and COLON tokens of a version is consumed as a whole *)
+Lemma version_run_all l : forall fuel w x r out n fl,
+  Forall (fun t => fst t = IDENT \/ fst t = COLON) l -> length l <= fuel ->
+  version_run fuel (mk_pst (l ++ ws_toks w ++ (R_PARENS, x) :: r) out n fl) =
+  mk_pst (ws_toks w ++ (R_PARENS, x) :: r) (out ++ elems l) n fl.
+Proof.
+  induction l as [|[k s] t IH]; intros fuel w x r out n fl Hl Hf.
+  - cbn [app elems map]. rewrite app_nil_r. destruct fuel; cbn [version_run]; rewrite cur_is_vtok_stop; reflexivity.
+  - inversion Hl as [|? ? Hk Ht]; subst. cbn [fst] in Hk.
+    destruct fuel as [|f]; [cbn in Hf; lia|]. cbn [app version_run]. rewrite cur_is_vtok_eq. cbn [hd_kind].
+    destruct Hk as [-> | ->]; rewrite bump_cons, IH by (assumption || (cbn in Hf; lia));
+      change (elems ((?k, s) :: t)) with (Tok k s :: elems t); rewrite <- app_assoc; reflexivity.
+Qed.
+
+Lemma vtext_toks_kinds v : Forall (fun t => fst t = IDENT \/ fst t = COLON) (vtext_toks v).
+Proof.
+  rewrite vtext_toks_shape. constructor; [left; reflexivity|]. unfold colon_toks.
+  induction (vtail v) as [|p ps IH]; cbn [flat_map app]; [constructor|].
+  constructor; [right; reflexivity|]. constructor; [left; reflexivity|exact IH].
+Qed.
+
 Lemma version_text_vtext v w x r out n fl :
   version_text (mk_pst (vtext_toks v ++ ws_toks w ++ (R_PARENS, x) :: r) out n fl) =
   mk_pst (ws_toks w ++ (R_PARENS, x) :: r) (out ++ elems (vtext_toks v)) n fl.
 Proof.
-  unfold version_text, vtext_toks. destruct (v_epoch v) as [e|]; cbn [app].
-  - rewrite cur_is_eq. cbn [hd_kind rkind_eqb rkind_code N.eqb]. rewrite bump_cons.
-    rewrite cur_is_eq. cbn [hd_kind rkind_eqb rkind_code N.eqb Pos.eqb]. rewrite bump_cons.
-    unfold expect. rewrite cur_is_eq. cbn [hd_kind rkind_eqb rkind_code N.eqb]. rewrite bump_cons.
-    rewrite <- !app_assoc. reflexivity.
-  - rewrite cur_is_eq. cbn [hd_kind rkind_eqb rkind_code N.eqb]. rewrite bump_cons.
-    rewrite cur_is_ws_false; [reflexivity|reflexivity|reflexivity].
+  unfold version_text. rewrite cur_is_vtok_eq.
+  assert (E : hd_kind (vtext_toks v ++ ws_toks w ++ (R_PARENS, x) :: r) = Some IDENT) by (rewrite vtext_toks_shape; reflexivity).
+  rewrite E. apply version_run_all; [apply vtext_toks_kinds|].
+  unfold loop_fuel. cbn [toks]. rewrite app_length. lia.
 Qed.
 
 Lemma nowsk_vop o x : nowsk (vop_toks o ++ x).
 Proof. destruct o; reflexivity. Qed.
 
 Lemma nowsk_vtext v x : nowsk (vtext_toks v ++ x).
-Proof. unfold vtext_toks. destruct (v_epoch v); reflexivity. Qed.
+Proof. rewrite vtext_toks_shape. reflexivity. Qed.
 
 Lemma hd_vtext v x : exists s r, vtext_toks v ++ x = (IDENT, s) :: r.
-Proof. unfold vtext_toks. destruct (v_epoch v) as [e|]; cbn [app]; eauto. Qed.
+Proof. rewrite vtext_toks_shape. cbn [app]. eauto. Qed.
 
 Lemma rel_version_hit w0 v rest out n fl :
   rel_version (mk_pst (ws_toks w0 ++ vbody_toks v ++ rest) out n fl) =
@@ -165,8 +204,6 @@ Proof.
 Qed.
 
 (* ---- [ arch ... ] ---- *)
-Lemma elems_app a b : elems (a ++ b) = elems a ++ elems b.
-Proof. apply map_app. Qed.
 
 Lemma nowsk_neg b s x : nowsk (neg_toks b ++ (IDENT, s) :: x).
 Proof. destruct b; reflexivity. Qed.
